@@ -80,7 +80,7 @@ func c07RoundTrip(rec *Record) {
 func VerifC07Free() {
 	max := 6
 	if verifrt.Thorough() {
-		max = 8
+		max = 7
 	}
 	line := verifrt.Bytes(verifrt.Len(max))
 	verifAssumeASCIIBytes(line)
@@ -149,26 +149,25 @@ func VerifC07Shapes() {
 		}
 	}
 	nn := 1 + verifrt.Choice(2)
-	if verifrt.Thorough() {
-		nn = 1 + verifrt.Choice(3)
-	}
 	nameMax := 2
-	if verifrt.Thorough() {
-		nameMax = 3
-	}
 	for i := 0; i < nn; i++ {
 		b = c07WS(b, 1)
-		if i == 0 || verifrt.Thorough() {
+		if i == 0 {
 			b = c07Free(b, nameMax, true)
 		} else {
-			// quick: later names are one arbitrary byte
+			// later names are one arbitrary byte
 			b = c07Free(b, 1, true)
 		}
 	}
 	b = c07WS(b, 0)
 	if verifrt.Bool2() {
+		// comment of 0..1 (thorough 0..2) arbitrary bytes
+		cl := 1
+		if verifrt.Thorough() {
+			cl = 2
+		}
 		b = append(b, '#')
-		b = append(b, verifrt.Bytes(verifrt.Len(1))...)
+		b = append(b, verifrt.Bytes(verifrt.Len(cl))...)
 	}
 	verifAssumeNoACEBytes(b)
 	rec, ok := c07Check(b)
